@@ -19,6 +19,7 @@ Agreement of the next-protocol-predicting parsers with the explicit stacks is by
 import Schc.Proofs.Fixed
 import Schc.Proofs.CoapWalk
 import Schc.Proofs.SctpWalk
+import Schc.Proofs.Predict
 
 namespace Schc
 
@@ -145,5 +146,25 @@ example :
     subst hp
     exact ⟨by decide +kernel, by decide +kernel⟩
   · simp [Spec.ChunkValue.Wf]
+
+/-- what `factory` builds: the explicit stacks are three non-predicting parsers, the single-protocol ids one
+    predicting parser -/
+theorem C08_factory :
+    factory "IPv6-UDP-CoAP" = .ok [⟨"IPv6Parser", false, .syntactic⟩, ⟨"UDPParser", false, .syntactic⟩, ⟨"CoAPParser", false, .syntactic⟩] ∧
+    factory "IPv4-UDP-CoAP" = .ok [⟨"IPv4Parser", false, .syntactic⟩, ⟨"UDPParser", false, .syntactic⟩, ⟨"CoAPParser", false, .syntactic⟩] ∧
+    factory "IPv6" = .ok [⟨"IPv6Parser", true, .syntactic⟩] ∧ factory "IPv4" = .ok [⟨"IPv4Parser", true, .syntactic⟩] := by
+  refine ⟨by decide +kernel, by decide +kernel, by decide +kernel, by decide +kernel⟩
+
+/-- parsers with next-protocol prediction agree with the explicit stack parsers: whenever the explicit IPv6|IPv4 /
+    UDP / CoAP stack parses a packet whose next-header (protocol) field says UDP and whose destination port is the
+    CoAP port, the single predicting IP parser returns the same packet descriptor -/
+theorem C08_predict_agrees (ipcls : String) (hcls : ipcls = "IPv6Parser" ∨ ipcls = "IPv4Parser") (fuel : Nat) (b : ABuf) (p : Packet)
+    (hexp : packetParse fuel [⟨ipcls, false, .syntactic⟩, ⟨"UDPParser", false, .syntactic⟩, ⟨"CoAPParser", false, .syntactic⟩] b = .ok p)
+    (hproto : ∀ hi, runParser fuel ⟨ipcls, false, .syntactic⟩ b = .ok hi →
+      (fieldValue hi.fields (if ipcls = "IPv6Parser" then Gen.IPv6F.NEXT_HEADER else Gen.IPv4F.PROTOCOL)).value = 17)
+    (hport : ∀ hi hu, runParser fuel ⟨ipcls, false, .syntactic⟩ b = .ok hi → udpParse fuel false (b.from_ hi.length) = .ok hu →
+      (fieldValue hu.fields Gen.UDPF.DESTINATION_PORT).value = 5683) :
+    packetParse fuel [⟨ipcls, true, .syntactic⟩] b = .ok p :=
+  stack_agrees ipcls hcls fuel b p hexp hproto hport
 
 end Schc
